@@ -346,3 +346,72 @@ func (eng *Engine) inventoryGlobalWrites() []*Obligation {
 	}
 	return []*Obligation{o}
 }
+
+// inventoryScopeDiscipline (C06): a block scope that is opened must be closed on every path out of the function that
+// opened it, panics and error returns included. The evaluator does this with one idiom - `vm.BeginScope()` directly
+// followed by `defer vm.EndScope()` - and the three functions that use it carry a contract clause saying so. This
+// inventory extends the discipline to every other function of the interpreter's packages: outside package runtime,
+// VM.EndScope is only ever called deferred, and every VM.BeginScope call is followed, before any other call of the
+// same block, by the deferred VM.EndScope. A function that opens a scope without that pairing is reported.
+func (eng *Engine) inventoryScopeDiscipline() []*Obligation {
+	var bad []string
+	var keys []string
+	for k := range eng.funcs {
+		keys = append(keys, k)
+	}
+	sort.Strings(keys)
+	isVM := func(c *ssa.CallCommon, name string) bool {
+		f := c.StaticCallee()
+		if f == nil || f.Name() != name || f.Signature.Recv() == nil {
+			return false
+		}
+		return strings.HasSuffix(f.Signature.Recv().Type().String(), "/pkg/runtime.VM")
+	}
+	nSites := 0
+	for _, k := range keys {
+		f := eng.funcs[k]
+		if f.Pkg != nil && strings.HasSuffix(f.Pkg.Pkg.Path(), "/pkg/runtime") {
+			continue
+		}
+		for _, b := range f.Blocks {
+			for i, ins := range b.Instrs {
+				switch x := ins.(type) {
+				case *ssa.Call:
+					if isVM(x.Common(), "EndScope") {
+						bad = append(bad, fmt.Sprintf("%s calls VM.EndScope directly (not deferred) at %s", k, eng.fset.Position(x.Pos())))
+					}
+					if isVM(x.Common(), "BeginScope") {
+						nSites++
+						paired := false
+						for _, nx := range b.Instrs[i+1:] {
+							if d, ok := nx.(*ssa.Defer); ok && isVM(d.Common(), "EndScope") {
+								paired = true
+								break
+							}
+							if _, isCall := nx.(ssa.CallInstruction); isCall {
+								break
+							}
+						}
+						if !paired {
+							bad = append(bad, fmt.Sprintf("%s opens a scope at %s that is not closed by a deferred VM.EndScope placed directly after it", k, eng.fset.Position(x.Pos())))
+						}
+					}
+				case *ssa.Go:
+					if isVM(x.Common(), "EndScope") || isVM(x.Common(), "BeginScope") {
+						bad = append(bad, fmt.Sprintf("%s starts a goroutine on a scope operation at %s", k, eng.fset.Position(x.Pos())))
+					}
+				}
+			}
+		}
+	}
+	o := &Obligation{Name: "inventory/scope-discipline:every scope opened outside package runtime is closed by a deferred EndScope placed directly after BeginScope#1", Kind: "inventory", Fn: "inventory/scope-discipline", Evaluated: true, Solver: "eval", Result: "unsat"}
+	if len(bad) > 0 {
+		o.Result = "sat"
+		o.Model = strings.Join(bad, "\n")
+	} else if nSites == 0 {
+		// vacuity guard: the idiom exists in the pinned tree; finding no site at all means the scan is broken
+		o.Result = "sat"
+		o.Model = "no VM.BeginScope call site found: the inventory scanned nothing"
+	}
+	return []*Obligation{o}
+}
